@@ -23,9 +23,9 @@ from vf.runner import Violation
 
 EPS = np.finfo(np.float64).eps
 H = 1e-6          # finite-difference step on the manifold
-# central FD: truncation ~ H^2 * |d3x| ~ 1e-12*scale, round-off ~ eps*|x|/H ~ 3e-10*scale. Tolerance 2e-7*scale is
+# central FD: truncation ~ H^2 * |d3x| ~ 1e-12*scale, round-off ~ eps*|x|/H ~ 3e-10*scale. Tolerance 4e-8*scale is
 # ~100x the worst observed on the unchanged tree (see evidence extra.worst); a wrong Jacobian column is O(scale).
-TOL_FD = 2e-7
+TOL_FD = 4e-8
 K_EXACT = 2e3     # eps-scaled comparisons of closed-form quantities (FK vs oracle, J qvel vs objectVelocity)
 STRICT = bool(os.environ.get('VF_C07_STRICT'))   # disable the carve-out of the reported mj_jacDot deviation
 
@@ -128,8 +128,11 @@ def main(ck):
       for i, R in enumerate(F[name]):
         if name == 'ximat' and i == 0:
           continue
-        near('orthonormal', R @ R.T, np.eye(3), 1.0, 64 * EPS, '%s[%d] R R^T' % (name, i), 'frame-orthonormal')
-        if not abs(np.linalg.det(R) - 1) < 64 * EPS:
+        # inertial/geom/site frames are products of two unit quaternions (each unit to a few eps, model quats as
+        # normalised by the compiler) turned into a matrix: worst observed |R R^T - I| ~ 45 eps, |det-1| ~ 70 eps
+        near('orthonormal', R @ R.T, np.eye(3), 1.0, K_EXACT * EPS, '%s[%d] R R^T' % (name, i), 'frame-orthonormal')
+        track('det', abs(np.linalg.det(R) - 1) / (K_EXACT * EPS))
+        if not abs(np.linalg.det(R) - 1) < K_EXACT * EPS:
           raise Violation('%s[%d] det=%.17g' % (name, i, np.linalg.det(R)), bucket='frame-det')
     for b in range(nb):
       near('xmat-xquat', F['xmat'][b], kin.q2mat(F['xquat'][b]), 1.0, 64 * EPS, 'xmat[%d] vs matrix of xquat' % b,
@@ -411,7 +414,7 @@ TECHNIQUE = ('property-based testing: central finite differences of the engine\'
              'manifold, and an independent numpy forward-kinematics/Jacobian reference')
 LEVEL_TEXT = '''Random trees x random configurations: every frame, every Jacobian routine (point, body, COM, geom, site, subtree,
 point-axis, constraint rows in both storage modes), object velocities and mj_jacDot are compared with finite differences
-of positions (tolerance 2e-7*scale, ~100x the worst FD error seen on the unchanged tree) and with a reference written
+of positions (tolerance 4e-8*scale, ~100x the worst FD error seen on the unchanged tree) and with a reference written
 from the documentation (eps-scaled). Sampled, not exhaustive.'''
 LEVEL_NOTE = '''Trusted: numpy, ctypes reflection, verification build. Not covered: tracking/targeting camera modes, lights, flex
 vertices, weld rotation rows and contact rows of efc_J, mj_jacSparse/mj_jacDifPair (not exported), tendons with wrapping
